@@ -62,15 +62,16 @@ type c12Query struct {
 }
 
 type c12Server struct {
-	priv     ed25519.PrivateKey
-	pub      ed25519.PublicKey
-	lns      []*c12Ln
-	mu       sync.Mutex
-	q        map[string]c12Query // first 16 bytes of the request -> query id, connection
-	autoPong bool
-	pings    atomic.Int64
-	pongAt   []time.Time // when a pong was written (under mu)
-	pingAt   []time.Time // when a ping arrived (under mu)
+	priv        ed25519.PrivateKey
+	pub         ed25519.PublicKey
+	lns         []*c12Ln
+	mu          sync.Mutex
+	q           map[string]c12Query // first 16 bytes of the request -> query id, connection
+	autoPong    bool
+	pings       atomic.Int64
+	pongAt      []time.Time  // when a pong was written (under mu)
+	pingAt      []time.Time  // when a ping arrived (under mu)
+	undecodable atomic.Int64 // queries whose bytes field the server could not read
 	// authentication (tcp.authentificate -> nonce -> complete) and the latest query
 	needAuth bool         // clients authenticate: a connection abandoned before that counts as a failed attempt
 	auths    atomic.Int64 // completions with a valid signature
@@ -271,7 +272,11 @@ func (l *c12Ln) serve(c net.Conn) {
 			var q c12Query
 			copy(q.id[:], p.Payload[4:36])
 			q.k = l.k
-			data := c12DecodeBytes(p.Payload[36:])
+			data, ok := c12ReadBytes(p.Payload[36:])
+			if !ok {
+				s.undecodable.Add(1) // not a well-formed adnl.message.query: a real server drops it
+				continue
+			}
 			s.mu.Lock()
 			if len(data) >= 16 {
 				s.q[string(data[:16])] = q
@@ -327,6 +332,39 @@ func (l *c12Ln) serve(c net.Conn) {
 			}
 		}
 	}
+}
+
+// c12ReadBytes is the server's own reader of a TL `bytes` field that must fill b
+// exactly: length prefix in its canonical form (one byte below 254, else 254 and
+// three bytes), the data, zero padding to a multiple of four
+func c12ReadBytes(b []byte) ([]byte, bool) {
+	if len(b) == 0 {
+		return nil, false
+	}
+	head, n := 1, int(b[0])
+	if b[0] == 255 {
+		return nil, false
+	}
+	if b[0] == 254 {
+		if len(b) < 4 {
+			return nil, false
+		}
+		head, n = 4, int(b[1])|int(b[2])<<8|int(b[3])<<16
+		if n < 254 {
+			return nil, false
+		}
+	}
+	end := head + n
+	padded := (end + 3) &^ 3
+	if len(b) != padded {
+		return nil, false
+	}
+	for _, z := range b[end:] {
+		if z != 0 {
+			return nil, false
+		}
+	}
+	return b[head:end], true
 }
 
 func c12DecodeBytes(b []byte) []byte {
@@ -798,6 +836,7 @@ func runC12Script(in sx.V, D time.Duration) (r c12ScriptRes) {
 			// the maximal run of start ops is one concurrent batch
 			var batch []int
 			mode := map[int]int{}
+			pad := map[int]int{}
 			for p < len(ops) && (ops[p].Head() == "start" || ops[p].Head() == "startctx") {
 				i := ops[p].List[1].I()
 				batch = append(batch, i)
@@ -808,11 +847,9 @@ func runC12Script(in sx.V, D time.Duration) (r c12ScriptRes) {
 			}
 			p--
 			for _, i := range batch {
-				pad := 0
-				if i%7 == 3 {
-					pad = 300
-				}
-				calls[i] = e.startCallCtx(i, pad, mode[i])
+				// query sizes around the two forms of the length prefix (16 bytes of key + pad)
+				pad[i] = []int{0, 0, 237, 300, 238, 0, 239, 0, 240, 4080, 0, 65520, 0}[i%13]
+				calls[i] = e.startCallCtx(i, pad[i], mode[i])
 			}
 			for _, i := range batch {
 				c := calls[i]
@@ -826,6 +863,11 @@ func runC12Script(in sx.V, D time.Duration) (r c12ScriptRes) {
 				if _, got := e.srv.query(c.key); !ok || !got {
 					if c.returned() {
 						r.slow = true // the deadline passed before the server goroutine ran
+					}
+					if n := e.srv.undecodable.Load(); n > 0 {
+						fail("query-undecodable", fmt.Sprintf("the server could not read the query of call %d (%d bytes): the call cannot get the answer for its own query", i, len(c.key)+pad[i]))
+						r.out = sx.A("query-undecodable")
+						return r
 					}
 					return bad(fmt.Sprintf("query of call %d not received", i))
 				}
